@@ -4,19 +4,44 @@
 // prefix that reaches a chosen protocol state, then hostile messages) with the
 // reference chunk writer, applies byte-level mutations and delivers the bytes in
 // generated TCP slices to lal's real accept handler over an in-memory
-// connection.  Oracle: the session goroutine returns without panic once the
-// peer has sent EOF, the process stays alive, and a healthy publisher +
-// subscriber pair on the same server still relays a marker afterwards.
+// connection.  Generator dimensions:
 //
-// Not asserted: which error is returned, whether the connection is closed or
-// kept open until EOF.
+//   - hostile messages (commands with generated AMF0 trees, control messages,
+//     media, aggregates, lying lengths, every type id / header format);
+//   - well-formed commands in the wrong order (second play / publish, publish
+//     after play, deleteStream / closeStream followed by media, second connect);
+//   - chunks of several messages on different chunk stream ids interleaved in
+//     the middle of a message, valid or with lying lengths / a shared chunk
+//     stream id, optionally with Set Chunk Size messages between the chunks;
+//   - fragmentation over the WHOLE byte stream: 1-byte slices through every
+//     chunk header (basic header, message header, extended timestamp) and the
+//     first payload byte, around message boundaries, every n bytes, at chosen
+//     offsets;
+//   - bystanders on the SAME stream: a healthy subscriber (and a healthy
+//     publisher) attached to the stream the hostile peer publishes / plays.
+//
+// Oracle (oracle_test.go): the session goroutine returns without panic once the
+// peer has sent EOF, the process stays alive, the healthy sessions that share
+// the stream are still connected and relay a marker afterwards (a healthy
+// publisher can publish the stream the hostile peer had used), and a fresh
+// publisher + subscriber pair on another stream relays a marker too.
+//
+// Not asserted: which error is returned, whether the hostile connection is
+// closed or kept open until EOF, what (if anything) of the hostile peer's own
+// messages is relayed to the subscribers of its stream.
 package c04
 
 import (
 	"bytes"
+	"encoding/binary"
 	"encoding/hex"
+	"flag"
 	"fmt"
+	"os"
+	"runtime"
 	"runtime/debug"
+	"sort"
+	"strings"
 	"testing"
 	"time"
 
@@ -24,22 +49,20 @@ import (
 
 	"verif/drv/pbt"
 	"verif/gen"
-	"verif/harness/inproc"
-	"verif/harness/lalclient"
 	"verif/ref/rtmpref"
 )
 
 // AV is a compact AMF0 value spec.
 type AV struct {
-	K    string  `json:"k"` // num str lstr bool null undef obj ecma sarr ref date bad
-	N    float64 `json:"n,omitempty"`
-	S    string  `json:"s,omitempty"`
-	Rep  int     `json:"rep,omitempty"` // string = S repeated Rep times (long strings)
-	B    bool    `json:"b,omitempty"`
+	K    string   `json:"k"` // num str lstr bool null undef obj ecma sarr ref date bad
+	N    float64  `json:"n,omitempty"`
+	S    string   `json:"s,omitempty"`
+	Rep  int      `json:"rep,omitempty"` // string = S repeated Rep times (long strings)
+	B    bool     `json:"b,omitempty"`
 	Keys []string `json:"keys,omitempty"`
-	Vals []AV    `json:"vals,omitempty"`
-	Raw  string  `json:"raw,omitempty"` // hex, for K == "bad"
-	Nest int     `json:"nest,omitempty"` // K == "bomb": Nest levels of nested containers of kind S ("o","e","s")
+	Vals []AV     `json:"vals,omitempty"`
+	Raw  string   `json:"raw,omitempty"`  // hex, for K == "bad"
+	Nest int      `json:"nest,omitempty"` // K == "bomb": Nest levels of nested containers of kind S ("o","e","s")
 }
 
 func (a AV) value() (rtmpref.Value, []byte) {
@@ -124,7 +147,7 @@ func encodeArgs(args []AV) []byte {
 }
 
 type Msg struct {
-	Kind string `json:"kind"` // cmd | raw
+	Kind string `json:"kind"` // cmd | raw | ilv
 	// cmd
 	Cmd  string  `json:"cmd,omitempty"`
 	Tid  float64 `json:"tid,omitempty"`
@@ -141,8 +164,36 @@ type Msg struct {
 	Ts        uint32 `json:"ts"`
 	Fmt       uint8  `json:"fmt"`
 	ChunkSize int    `json:"chunk_size,omitempty"` // 0: keep the writer's
-	DeclLen   int    `json:"decl_len,omitempty"`   // >0: lie about the message length in the header
+	DeclLen   int    `json:"decl_len,omitempty"`   // >0: lie about the message length in the header; <0: cut the body short
 	WideCsid  bool   `json:"wide_csid,omitempty"`
+	// ilv: a group of messages whose chunks are interleaved
+	Ilv *Ilv `json:"ilv,omitempty"`
+}
+
+// Ilv is a group of messages (normally on different chunk stream ids) whose chunks are emitted interleaved:
+// Order lists part indices, each entry emits the next chunk of that part; what is left is flushed round-robin.
+// Scs injects complete Set Chunk Size messages (chunk stream 2) between the chunks.
+type Ilv struct {
+	Parts []Msg    `json:"parts"`
+	Order []int    `json:"order,omitempty"`
+	Scs   []IlvScs `json:"scs,omitempty"`
+}
+
+// IlvScs is one Set Chunk Size message sent after the After-th chunk of the group.  Adopt: the writer cuts the
+// following chunks with the announced size (what a conforming peer does); otherwise it keeps its size (lying).
+type IlvScs struct {
+	After int    `json:"after"`
+	Size  uint32 `json:"size"`
+	Adopt bool   `json:"adopt,omitempty"`
+}
+
+// Frag describes the TCP segmentation of the whole byte stream in addition to the leading Slices.
+type Frag struct {
+	Hdr1  bool  `json:"hdr1,omitempty"`  // every byte of every chunk header (basic header, message header, extended timestamp) and the first payload byte in its own segment
+	Edge  bool  `json:"edge,omitempty"`  // 1-byte segments around every message end
+	Every int   `json:"every,omitempty"` // a cut every n bytes after the handshake
+	At    []int `json:"at,omitempty"`    // runs of 1-byte segments starting at these offsets (mod stream length)
+	Run   int   `json:"run,omitempty"`   // length of the runs at At (default 1)
 }
 
 type Case struct {
@@ -152,7 +203,10 @@ type Case struct {
 	Msgs      []Msg  `json:"msgs"`
 	Flips     []int  `json:"flips,omitempty"` // byte offsets (mod len) to corrupt
 	Trunc     int    `json:"trunc"`           // -1: whole stream; else keep this many bytes (mod len+1)
-	Slices    []int  `json:"slices"`
+	Slices    []int  `json:"slices"`          // sizes of the leading segments
+	Frag      *Frag  `json:"frag,omitempty"`
+	// By: healthy sessions attached to Stream before the hostile bytes: "" (none), "sub", "sub+pub"
+	By string `json:"by,omitempty"`
 }
 
 func (m Msg) payload() []byte {
@@ -181,15 +235,36 @@ func (m Msg) typeID() uint8 {
 	return m.Type
 }
 
+var startTime = time.Now()
+
 func init() {
 	// make stack exhaustion cheap and deterministic: a few hundred thousand nested containers overflow 32 MiB
 	debug.SetMaxStack(32 << 20)
+	// lal allocates (and zeroes) up to 16 MiB per lying chunk header: with the default pacing the collector runs
+	// after every few such allocations on 16 Ps and eats 60 % of the CPU (measured).  Collect less often, keep the
+	// process bounded, and do not spread one shard over every core (the driver runs the shards in parallel).
+	debug.SetGCPercent(800)
+	debug.SetMemoryLimit(2 << 30)
+	if runtime.GOMAXPROCS(0) > 4 {
+		runtime.GOMAXPROCS(4)
+	}
+}
+
+// disabled reports whether a generator dimension is switched off (sensitivity runs only:
+// VERIF_C04_DISABLE=by,frag,ilv,seq shows that a mutant is caught by that dimension and by nothing else).
+func disabled(dim string) bool {
+	for _, d := range strings.Split(os.Getenv("VERIF_C04_DISABLE"), ",") {
+		if d == dim {
+			return true
+		}
+	}
+	return false
 }
 
 // ---- generators -------------------------------------------------------------
 
 var strGen = rapid.OneOf(
-	rapid.SampledFrom([]string{"", "live", "test", "onMetaData", "@setDataFrame", "|RtmpSampleAccess", "a?b=c?d", "../../x", "\x00", "live/x/y"}),
+	rapid.SampledFrom([]string{"", "live", "test", "onMetaData", "@setDataFrame", "|RtmpSampleAccess", "a?b=c?d", "../../x", "\x00", "live/x/y", "s1", "s2"}),
 	rapid.StringMatching(`[a-z0-9/?=&.]{0,12}`),
 )
 
@@ -231,8 +306,10 @@ func avGen(depth int) *rapid.Generator[AV] {
 			}
 			return a
 		default:
-			nest := rapid.SampledFrom([]int{2, 65, 70, 1000, 20000, 65, 2, 250000}).Draw(t, "nest")
-			if pbt.Thorough() && rapid.IntRange(0, 20).Draw(t, "huge") == 0 {
+			// 250000 levels (1 MiB) are what exhausts a 32 MiB stack when the nesting limit is missing; they are also
+			// the most expensive bodies once the chunk layer has lost synchronisation, so they are drawn less often
+			nest := rapid.SampledFrom([]int{2, 65, 70, 1000, 20000, 65, 2, 250000, 2, 64, 66, 1000, 5000, 65, 70, 3}).Draw(t, "nest")
+			if pbt.Thorough() && rapid.IntRange(0, 30).Draw(t, "huge") == 0 {
 				nest = 1000000
 			}
 			return AV{K: "bomb", S: rapid.SampledFrom([]string{"o", "e", "s"}).Draw(t, "bombKind"), Nest: nest}
@@ -243,7 +320,79 @@ func avGen(depth int) *rapid.Generator[AV] {
 var csidGen = rapid.OneOf(rapid.IntRange(2, 8), rapid.SampledFrom([]int{2, 3, 63, 64, 319, 320, 65599}))
 var tsGen = rapid.OneOf(rapid.Uint32Range(0, 1000), rapid.SampledFrom([]uint32{0, 0xFFFFFE, 0xFFFFFF, 0x1000000, 0xFFFFFFFF}))
 
-func hostileMsg(t *rapid.T) Msg {
+var streamNames = []string{"s1", "s2", "s1?a=b", "", "x/../y"}
+
+// seqCmd is a WELL-FORMED command (valid framing, the arguments lal's handler expects) — hostile only by its position
+// in the session: a second play / publish, publish after play, deleteStream / closeStream before more media, a second
+// connect / createStream.
+func seqCmd(t *rapid.T, stream string) Msg {
+	m := Msg{Kind: "cmd", Msid: 1, Csid: rapid.SampledFrom([]int{3, 5, 8, 3}).Draw(t, "seqCsid"), Ts: rapid.SampledFrom([]uint32{0, 0, 40, 0xFFFFFF}).Draw(t, "seqTs")}
+	m.Tid = rapid.SampledFrom([]float64{4, 0, 5, 2}).Draw(t, "seqTid")
+	name := stream
+	if rapid.IntRange(0, 2).Draw(t, "otherName") == 0 {
+		name = rapid.SampledFrom([]string{"s1", "s2", "other", "probe", ""}).Draw(t, "seqName")
+	}
+	str := func(s string) AV { return AV{K: "str", S: s} }
+	m.Cmd = rapid.SampledFrom([]string{"publish", "play", "play", "publish", "deleteStream", "closeStream", "FCUnpublish", "createStream", "connect",
+		"releaseStream", "FCPublish", "pause", "seek", "receiveAudio", "play2", "getStreamLength"}).Draw(t, "seqCmd")
+	switch m.Cmd {
+	case "publish":
+		m.Args = []AV{{K: "null"}, str(name), str(rapid.SampledFrom([]string{"live", "record", "append"}).Draw(t, "pubType"))}
+		if rapid.IntRange(0, 5).Draw(t, "noPubType") == 0 {
+			m.Args = m.Args[:2]
+		}
+	case "play":
+		m.Args = []AV{{K: "null"}, str(name)}
+		if rapid.Bool().Draw(t, "playArgs") {
+			m.Args = append(m.Args, AV{K: "num", N: -2}, AV{K: "num", N: -1}, AV{K: "bool", B: true})
+		}
+	case "play2":
+		m.Args = []AV{{K: "null"}, {K: "obj", Keys: []string{"streamName"}, Vals: []AV{str(name)}}}
+	case "deleteStream":
+		m.Msid = 0
+		m.Args = []AV{{K: "null"}, {K: "num", N: 1}}
+	case "closeStream":
+		m.Args = []AV{{K: "null"}}
+	case "FCUnpublish", "releaseStream", "FCPublish", "getStreamLength":
+		m.Msid = 0
+		m.Args = []AV{{K: "null"}, str(name)}
+	case "createStream":
+		m.Msid = 0
+		m.Args = []AV{{K: "null"}}
+	case "connect":
+		m.Msid = 0
+		m.Tid = 1
+		m.Args = []AV{{K: "obj", Keys: []string{"app", "tcUrl"}, Vals: []AV{str(rapid.SampledFrom([]string{"live", "other", ""}).Draw(t, "app2")), str("rtmp://127.0.0.1/live")}}}
+	case "pause":
+		m.Args = []AV{{K: "null"}, {K: "bool", B: true}, {K: "num", N: 0}}
+	case "seek":
+		m.Args = []AV{{K: "null"}, {K: "num", N: 1000}}
+	case "receiveAudio":
+		m.Args = []AV{{K: "null"}, {K: "bool", B: false}}
+	}
+	m.Amf3 = rapid.IntRange(0, 9).Draw(t, "seqAmf3") == 0
+	return m
+}
+
+// validMedia is a well-framed audio / video / data message a publisher may send.
+func validMedia(t *rapid.T) Msg {
+	m := Msg{Kind: "raw", Msid: 1, Ts: rapid.SampledFrom([]uint32{0, 40, 80, 1000, 0xFFFFFF}).Draw(t, "mediaTs")}
+	switch rapid.IntRange(0, 4).Draw(t, "mediaKind") {
+	case 0:
+		m.Type, m.Csid, m.RawHex = 8, 4, "af0112100000"
+	case 1:
+		m.Type, m.Csid, m.RawHex = 8, 4, "af01deadbeef"
+	case 2:
+		m.Type, m.Csid, m.RawHex = 9, 6, "17010000000000000565aabbccdd"
+	case 3:
+		m.Type, m.Csid, m.RawHex = 18, 5, "02000d40736574446174614672616d6502000a6f6e4d6574614461746108000000010001780200"
+	default:
+		m.Type, m.Csid, m.RawSeed, m.RawLen = 9, 6, rapid.Uint32().Draw(t, "mediaSeed"), rapid.SampledFrom([]int{300, 4097, 9000}).Draw(t, "mediaLen")
+	}
+	return m
+}
+
+func hostileMsg(t *rapid.T, stream string) Msg {
 	var m Msg
 	m.Csid = csidGen.Draw(t, "csid")
 	m.Msid = rapid.SampledFrom([]uint32{1, 0, 1, 2, 0xFFFFFFFF}).Draw(t, "msid")
@@ -260,7 +409,7 @@ func hostileMsg(t *rapid.T) Msg {
 		// the message is cut a few bytes short of its last value (negative = relative to the real length)
 		m.DeclLen = -rapid.IntRange(1, 5).Draw(t, "cutBy")
 	}
-	switch rapid.IntRange(0, 12).Draw(t, "msgClass") {
+	switch rapid.IntRange(0, 14).Draw(t, "msgClass") {
 	case 0, 1, 2: // command with generated args
 		m.Kind = "cmd"
 		m.Cmd = rapid.SampledFrom([]string{"connect", "createStream", "publish", "play", "releaseStream", "FCPublish", "deleteStream", "getStreamLength", "pause", "", "_result", "onStatus", "closeStream"}).Draw(t, "cmd")
@@ -312,6 +461,16 @@ func hostileMsg(t *rapid.T) Msg {
 		m.Kind = "raw"
 		m.Type = rapid.SampledFrom([]uint8{20, 17, 15, 16, 19}).Draw(t, "cmdRawType")
 		m.RawHex = rapid.SampledFrom([]string{"", "00", "02", "0200", "0200077075626c697368", "0200077075626c69736800", "0200077075626c697368003ff0000000000000", "0200077075626c697368003ff000000000000005", "02000470 6c6179003ff00000000000000502", "020007636f6e6e656374003ff0000000000000", "020007636f6e6e656374003ff000000000000003", "020007636f6e6e656374003ff00000000000000300036170700200046c69766500000905", "0002000763"}).Draw(t, "cmdRaw")
+	case 13: // a well-formed command at the wrong moment
+		if disabled("seq") {
+			return validMedia(t)
+		}
+		return seqCmd(t, stream)
+	case 14: // interleaved chunks
+		if disabled("ilv") {
+			return validMedia(t)
+		}
+		return ilvMsg(t, stream)
 	default: // valid-looking media (keeps remuxers busy)
 		m.Kind = "raw"
 		m.Type = 9
@@ -320,14 +479,128 @@ func hostileMsg(t *rapid.T) Msg {
 	return m
 }
 
+// ilvPart is one message of an interleaved group: mostly bodies of several chunks so that there is a "middle".
+func ilvPart(t *rapid.T, stream string, csid int) Msg {
+	var m Msg
+	switch rapid.IntRange(0, 6).Draw(t, "partKind") {
+	case 0, 1, 2:
+		m = Msg{Kind: "raw", Type: rapid.SampledFrom([]uint8{9, 8, 18, 9}).Draw(t, "partType"), RawSeed: rapid.Uint32().Draw(t, "partSeed"),
+			RawLen: rapid.SampledFrom([]int{129, 256, 257, 300, 1000, 4097, 9000}).Draw(t, "partLen"), Msid: 1, Ts: tsGen.Draw(t, "partTs")}
+	case 3: // a command whose body spans chunks
+		m = seqCmd(t, stream)
+		m.Args = append(m.Args, AV{K: "str", S: "pad", Rep: rapid.SampledFrom([]int{50, 100, 400}).Draw(t, "padRep")})
+	case 4: // lying length on a part
+		m = Msg{Kind: "raw", Type: rapid.SampledFrom([]uint8{9, 8, 18, 20}).Draw(t, "lyingPartType"), RawSeed: rapid.Uint32().Draw(t, "partSeed"),
+			RawLen: rapid.SampledFrom([]int{129, 300, 1000}).Draw(t, "partLen"), Msid: 1, Ts: tsGen.Draw(t, "partTs"),
+			DeclLen: rapid.SampledFrom([]int{1, 128, 129, 200, 299, 301, 5000, 0xFFFFFF}).Draw(t, "partDecl")}
+	case 5: // aggregate of two sub messages, several chunks
+		sub := rtmpref.BuildAggregate([]rtmpref.Msg{{TypeID: 9, StreamID: 1, Ts: 10, Payload: gen.Bytes(3, 200)}, {TypeID: 8, StreamID: 1, Ts: 20, Payload: gen.Bytes(4, 90)}})
+		m = Msg{Kind: "raw", Type: 22, RawHex: hex.EncodeToString(sub), Msid: 1, Ts: tsGen.Draw(t, "partTs")}
+	default:
+		m = hostileMsg2(t, stream)
+	}
+	m.Csid = csid
+	m.Fmt = uint8(rapid.SampledFrom([]int{0, 0, 0, 0, 1, 2, 3}).Draw(t, "partFmt"))
+	return m
+}
+
+// hostileMsg2 is hostileMsg without nested groups.
+func hostileMsg2(t *rapid.T, stream string) Msg {
+	m := hostileMsg(t, stream)
+	if m.Kind == "ilv" {
+		return validMedia(t)
+	}
+	return m
+}
+
+func ilvMsg(t *rapid.T, stream string) Msg {
+	g := &Ilv{}
+	n := rapid.SampledFrom([]int{2, 2, 2, 3}).Draw(t, "nparts")
+	csids := rapid.SampledFrom([][]int{{4, 6, 5}, {6, 4, 3}, {3, 5, 8}, {64, 6, 320}, {4, 68, 6}, {7, 8, 65599}, {2, 4, 6}}).Draw(t, "partCsids")
+	for i := 0; i < n; i++ {
+		g.Parts = append(g.Parts, ilvPart(t, stream, csids[i]))
+	}
+	if rapid.IntRange(0, 6).Draw(t, "sameCsid") == 0 {
+		// lying: a second message starts on the chunk stream of the first one, in its middle
+		g.Parts[1].Csid = g.Parts[0].Csid
+	}
+	for i := rapid.IntRange(2, 12).Draw(t, "norder"); i > 0; i-- {
+		g.Order = append(g.Order, rapid.IntRange(0, n-1).Draw(t, "orderPart"))
+	}
+	for i := rapid.SampledFrom([]int{0, 0, 1, 1, 2}).Draw(t, "nscs"); i > 0; i-- {
+		g.Scs = append(g.Scs, IlvScs{After: rapid.IntRange(1, 8).Draw(t, "scsAfter"),
+			Size:  rapid.SampledFrom([]uint32{1, 2, 64, 127, 128, 129, 256, 4096, 0x7fffffff, 0, 0x80000080}).Draw(t, "scsSize"),
+			Adopt: rapid.IntRange(0, 3).Draw(t, "scsAdopt") != 0})
+	}
+	return Msg{Kind: "ilv", Ilv: g}
+}
+
+func genFrag(t *rapid.T) *Frag {
+	if disabled("frag") {
+		return nil
+	}
+	switch rapid.IntRange(0, 11).Draw(t, "fragKind") {
+	case 0, 1, 2, 3:
+		return nil
+	case 4, 5:
+		return &Frag{Hdr1: true}
+	case 6:
+		return &Frag{Hdr1: true, Edge: true}
+	case 7:
+		return &Frag{Edge: true}
+	case 8:
+		return &Frag{Every: rapid.SampledFrom([]int{1, 1, 2, 3, 5, 7, 64, 127, 128, 129, 4095, 4096, 4097}).Draw(t, "fragEvery")}
+	case 9:
+		return &Frag{Hdr1: true, Every: rapid.SampledFrom([]int{1, 2, 13, 128}).Draw(t, "fragEvery")}
+	default:
+		f := &Frag{Run: rapid.SampledFrom([]int{1, 2, 4, 8, 16, 40}).Draw(t, "fragRun")}
+		for i := rapid.IntRange(1, 6).Draw(t, "nAt"); i > 0; i-- {
+			f.At = append(f.At, rapid.IntRange(0, 1<<17).Draw(t, "fragAt"))
+		}
+		return f
+	}
+}
+
 func genCase(t *rapid.T) Case {
 	var c Case
 	c.Handshake = rapid.SampledFrom([]string{"simple", "simple", "simple", "simple", "complexish", "badversion", "short", "garbage", "none"}).Draw(t, "handshake")
 	c.Stage = rapid.SampledFrom([]string{"raw", "connected", "publishing", "publishing", "playing"}).Draw(t, "stage")
-	c.Stream = rapid.SampledFrom([]string{"s1", "s2", "s1?a=b", "", "x/../y"}).Draw(t, "stream")
-	n := rapid.IntRange(0, 6).Draw(t, "nmsgs")
-	for i := 0; i < n; i++ {
-		c.Msgs = append(c.Msgs, hostileMsg(t))
+	c.Stream = rapid.SampledFrom(streamNames).Draw(t, "stream")
+	scenario := rapid.IntRange(0, 9).Draw(t, "scenario")
+	switch {
+	case scenario >= 8 && !disabled("seq"):
+		// re-ordered commands: a few valid media messages, well-formed commands at the wrong moment, media again
+		if rapid.Bool().Draw(t, "seqStage") {
+			c.Stage = rapid.SampledFrom([]string{"publishing", "playing"}).Draw(t, "seqStageKind")
+		}
+		for i := rapid.IntRange(0, 2).Draw(t, "nbefore"); i > 0; i-- {
+			c.Msgs = append(c.Msgs, validMedia(t))
+		}
+		for i := rapid.IntRange(1, 3).Draw(t, "nseq"); i > 0; i-- {
+			c.Msgs = append(c.Msgs, seqCmd(t, c.Stream))
+			if rapid.Bool().Draw(t, "mediaAfter") {
+				c.Msgs = append(c.Msgs, validMedia(t))
+			}
+		}
+		for i := rapid.IntRange(0, 2).Draw(t, "ntail"); i > 0; i-- {
+			c.Msgs = append(c.Msgs, hostileMsg(t, c.Stream))
+		}
+	case scenario >= 6 && !disabled("ilv"):
+		// interleaved chunks, mostly while publishing
+		if rapid.IntRange(0, 2).Draw(t, "ilvStage") != 0 {
+			c.Stage = "publishing"
+		}
+		for i := rapid.IntRange(1, 2).Draw(t, "nilv"); i > 0; i-- {
+			c.Msgs = append(c.Msgs, ilvMsg(t, c.Stream))
+		}
+		for i := rapid.IntRange(0, 2).Draw(t, "ntail"); i > 0; i-- {
+			c.Msgs = append(c.Msgs, hostileMsg(t, c.Stream))
+		}
+	default:
+		n := rapid.IntRange(0, 6).Draw(t, "nmsgs")
+		for i := 0; i < n; i++ {
+			c.Msgs = append(c.Msgs, hostileMsg(t, c.Stream))
+		}
 	}
 	if c.Stage == "publishing" && rapid.IntRange(0, 3).Draw(t, "leadingMedia") == 0 {
 		// well-framed media-sized messages first (before anything that may close the session): several output chunks,
@@ -336,11 +609,11 @@ func genCase(t *rapid.T) Case {
 		for i := rapid.IntRange(1, 3).Draw(t, "nlead"); i > 0; i-- {
 			lead = append(lead, Msg{Kind: "raw", Type: rapid.SampledFrom([]uint8{9, 9, 8, 18}).Draw(t, "leadType"), RawSeed: rapid.Uint32().Draw(t, "leadSeed"),
 				RawLen: rapid.SampledFrom([]int{1, 4096, 4097, 8192, 8193, 9000, 12289, 20000, 70000}).Draw(t, "leadLen"),
-				Csid: rapid.SampledFrom([]int{4, 6, 5}).Draw(t, "leadCsid"), Msid: 1, Ts: tsGen.Draw(t, "leadTs")})
+				Csid:   rapid.SampledFrom([]int{4, 6, 5}).Draw(t, "leadCsid"), Msid: 1, Ts: tsGen.Draw(t, "leadTs")})
 		}
 		c.Msgs = append(lead, c.Msgs...)
 	}
-	nf := rapid.SampledFrom([]int{0, 0, 0, 1, 2, 3}).Draw(t, "nflips")
+	nf := rapid.SampledFrom([]int{0, 0, 0, 0, 1, 2, 3}).Draw(t, "nflips")
 	for i := 0; i < nf; i++ {
 		c.Flips = append(c.Flips, rapid.IntRange(0, 1<<20).Draw(t, "flipAt"))
 	}
@@ -351,6 +624,20 @@ func genCase(t *rapid.T) Case {
 	ns := rapid.IntRange(0, 8).Draw(t, "nslices")
 	for i := 0; i < ns; i++ {
 		c.Slices = append(c.Slices, rapid.SampledFrom([]int{1, 1, 2, 3, 7, 11, 12, 100, 1536, 1537, 4000}).Draw(t, "slice"))
+	}
+	c.Frag = genFrag(t)
+	if !disabled("by") {
+		// healthy sessions on the same stream; a publisher only where the hostile peer is not meant to be the publisher
+		// (a second publisher is refused at once, which is worth a few cases but hides everything behind it)
+		switch by := rapid.IntRange(0, 9).Draw(t, "by"); {
+		case by == 0:
+		case c.Stage == "publishing" && by < 9:
+			c.By = "sub"
+		case by < 4:
+			c.By = "sub"
+		default:
+			c.By = "sub+pub"
+		}
 	}
 	return c
 }
@@ -384,152 +671,367 @@ func cmdMsg(cmd string, tid float64, csid int, msid uint32, args ...rtmpref.Valu
 	return rtmpref.Msg{Csid: csid, TypeID: rtmpref.TypeCmdAmf0, StreamID: msid, Payload: rtmpref.EncodeAmf0(vs...)}
 }
 
-func render(c Case) []byte {
-	out := handshakeBytes(c.Handshake)
-	w := rtmpref.NewChunkWriter(128)
-	emit := func(m rtmpref.Msg) { out = append(out, w.WriteMsg(m, 0)...) }
-	if c.Stage != "raw" {
-		emit(cmdMsg("connect", 1, 3, 0, rtmpref.Obj(rtmpref.M("app", rtmpref.Str("live")), rtmpref.M("tcUrl", rtmpref.Str("rtmp://127.0.0.1/live")))))
-		if c.Stage == "publishing" || c.Stage == "playing" {
-			emit(cmdMsg("createStream", 2, 3, 0, rtmpref.Null()))
-			if c.Stage == "publishing" {
-				emit(cmdMsg("publish", 3, 5, 1, rtmpref.Null(), rtmpref.Str(c.Stream), rtmpref.Str("live")))
-			} else {
-				emit(cmdMsg("play", 3, 5, 1, rtmpref.Null(), rtmpref.Str(c.Stream)))
+// wire is the rendered byte stream with the structural offsets the fragmentation refers to.
+type wire struct {
+	b         []byte
+	hsEnd     int      // end of the handshake bytes
+	prefixEnd int      // end of the valid prefix (connect .. publish / play)
+	hdrs      [][2]int // [start, end) of every chunk header after the handshake (end = first payload byte)
+	msgEnds   []int    // end offsets of complete messages
+}
+
+type renderer struct {
+	wire
+	w     *rtmpref.ChunkWriter
+	lalCS uint32 // the chunk size lal has been told (as far as the rendered messages say)
+}
+
+// pstate is a message being emitted chunk by chunk.
+type pstate struct {
+	m    Msg
+	p    *rtmpref.Pending
+	rem  int // payload bytes not yet emitted
+	n    int // chunks emitted
+	decl int // >0: length to write into the first header instead of the real one
+	scs  uint32
+	isCS bool
+}
+
+const maxTinyChunkBody = 5000
+
+func (r *renderer) start(m Msg) *pstate {
+	p := m.payload()
+	if m.ChunkSize > 0 {
+		r.w.ChunkSize = m.ChunkSize
+	}
+	if (r.w.ChunkSize < 16 || r.lalCS < 32) && len(p) > maxTinyChunkBody {
+		// tiny chunks (the writer's, or the size lal was told): keep the chunk count — and the 16 MiB buffer lal
+		// allocates per lying header once the two sides disagree — sane
+		p = p[:maxTinyChunkBody]
+	}
+	decl := m.DeclLen
+	if decl < 0 {
+		// the body is cut a few bytes short of its last value; the header declares the cut length, so the chunk
+		// layer completes the message
+		if len(p)+decl > 0 {
+			p = p[:len(p)+decl]
+		}
+		decl = 0
+	}
+	rm := rtmpref.Msg{Csid: m.Csid, TypeID: m.typeID(), StreamID: m.Msid, Ts: m.Ts, Payload: p}
+	ps := &pstate{m: m, p: r.w.Begin(rm, m.Fmt), rem: len(p), decl: decl}
+	if rm.TypeID == rtmpref.TypeSetChunkSize && len(p) >= 4 && decl == 0 {
+		ps.isCS, ps.scs = true, binary.BigEndian.Uint32(p)
+	}
+	return ps
+}
+
+// chunk emits the next chunk of ps and records where its header lies.
+func (r *renderer) chunk(ps *pstate) {
+	r.w.WideCsid = ps.m.WideCsid
+	n := ps.rem
+	if n > r.w.ChunkSize {
+		n = r.w.ChunkSize
+	}
+	b := ps.p.Next()
+	hl := len(b) - n
+	if ps.n == 0 && ps.decl > 0 && ps.m.Fmt <= 1 {
+		off := 1
+		if ps.m.Csid >= 64 {
+			off = 2
+			if ps.m.Csid >= 320 || ps.m.WideCsid {
+				off = 3
 			}
+		}
+		if len(b) >= off+6 {
+			b[off+3], b[off+4], b[off+5] = byte(ps.decl>>16), byte(ps.decl>>8), byte(ps.decl)
 		}
 	}
-	for _, m := range c.Msgs {
-		p := m.payload()
-		if m.ChunkSize > 0 {
-			w.ChunkSize = m.ChunkSize
+	at := len(r.b)
+	r.hdrs = append(r.hdrs, [2]int{at, at + hl})
+	r.b = append(r.b, b...)
+	ps.rem -= n
+	ps.n++
+	if ps.p.Done() {
+		r.msgEnds = append(r.msgEnds, len(r.b))
+		if ps.isCS {
+			r.lalCS = ps.scs
 		}
-		w.WideCsid = m.WideCsid
-		if w.ChunkSize < 16 && len(p) > 5000 {
-			p = p[:5000] // tiny chunks: keep the chunk count (and lal's per-chunk cost) sane
+	}
+}
+
+func (r *renderer) msg(m Msg) {
+	if m.Kind == "ilv" {
+		if m.Ilv != nil {
+			r.ilv(m.Ilv)
 		}
-		rm := rtmpref.Msg{Csid: m.Csid, TypeID: m.typeID(), StreamID: m.Msid, Ts: m.Ts, Payload: p}
-		b := w.WriteMsg(rm, m.Fmt)
-		if m.DeclLen < 0 {
-			if len(p)+m.DeclLen > 0 {
-				m.DeclLen = len(p) + m.DeclLen
-				// send only the declared part so that the chunk layer completes the (cut) message
-				rm.Payload = p[:m.DeclLen]
-				b = w.WriteMsg(rm, m.Fmt)
+		return
+	}
+	ps := r.start(m)
+	for !ps.p.Done() {
+		r.chunk(ps)
+	}
+}
+
+func (r *renderer) plain(m rtmpref.Msg) {
+	ps := &pstate{p: r.w.Begin(m, 0), rem: len(m.Payload), m: Msg{Csid: m.Csid}}
+	for !ps.p.Done() {
+		r.chunk(ps)
+	}
+}
+
+func (r *renderer) ilv(g *Ilv) {
+	if len(g.Parts) == 0 {
+		return
+	}
+	parts := make([]*pstate, len(g.Parts))
+	emitted := 0
+	step := func(i int) bool {
+		if parts[i] == nil {
+			pm := g.Parts[i]
+			if pm.Kind == "ilv" {
+				pm = Msg{Kind: "raw", Type: 8, RawHex: "af01", Csid: 4, Msid: 1}
 			}
-			m.DeclLen = 0
+			parts[i] = r.start(pm)
 		}
-		if m.DeclLen > 0 && m.Fmt <= 1 {
-			off := 1
-			if m.Csid >= 64 {
-				off = 2
-				if m.Csid >= 320 || m.WideCsid {
-					off = 3
+		if parts[i].p.Done() {
+			return false
+		}
+		r.chunk(parts[i])
+		emitted++
+		for _, sc := range g.Scs {
+			if sc.After == emitted {
+				keep := r.w.WideCsid
+				r.w.WideCsid = false
+				r.plain(rtmpref.SetChunkSizeMsg(sc.Size))
+				r.w.WideCsid = keep
+				r.lalCS = sc.Size
+				if sc.Adopt {
+					v := sc.Size & 0x7fffffff
+					if v < 1 {
+						v = 1
+					}
+					if v > 1<<20 {
+						v = 1 << 20
+					}
+					r.w.ChunkSize = int(v)
 				}
 			}
-			if len(b) >= off+6 {
-				b[off+3], b[off+4], b[off+5] = byte(m.DeclLen>>16), byte(m.DeclLen>>8), byte(m.DeclLen)
+		}
+		return true
+	}
+	for _, i := range g.Order {
+		if i < 0 {
+			i = -i
+		}
+		step(i % len(parts))
+	}
+	for progress := true; progress; {
+		progress = false
+		for i := range parts {
+			if step(i) {
+				progress = true
 			}
 		}
-		out = append(out, b...)
 	}
+}
+
+func renderWire(c Case) wire {
+	r := &renderer{w: rtmpref.NewChunkWriter(128), lalCS: 128}
+	r.b = handshakeBytes(c.Handshake)
+	r.hsEnd = len(r.b)
+	if c.Stage != "raw" {
+		r.plain(cmdMsg("connect", 1, 3, 0, rtmpref.Obj(rtmpref.M("app", rtmpref.Str("live")), rtmpref.M("tcUrl", rtmpref.Str("rtmp://127.0.0.1/live")))))
+		if c.Stage == "publishing" || c.Stage == "playing" {
+			r.plain(cmdMsg("createStream", 2, 3, 0, rtmpref.Null()))
+			if c.Stage == "publishing" {
+				r.plain(cmdMsg("publish", 3, 5, 1, rtmpref.Null(), rtmpref.Str(c.Stream), rtmpref.Str("live")))
+			} else {
+				r.plain(cmdMsg("play", 3, 5, 1, rtmpref.Null(), rtmpref.Str(c.Stream)))
+			}
+		}
+	}
+	r.prefixEnd = len(r.b)
+	for _, m := range c.Msgs {
+		r.msg(m)
+	}
+	out := r.b
 	for _, f := range c.Flips {
 		if len(out) > 0 {
+			if f < 0 {
+				f = -f
+			}
 			out[f%len(out)] ^= byte(1 + f%251)
 		}
 	}
 	if c.Trunc >= 0 {
 		out = out[:c.Trunc%(len(out)+1)]
 	}
-	return out
+	r.b = out
+	if r.prefixEnd > len(out) {
+		r.prefixEnd = len(out)
+	}
+	return r.wire
 }
 
-// ---- oracle -------------------------------------------------------------------
+func render(c Case) []byte { return renderWire(c).b }
 
-func run(c Case) *pbt.Violation {
-	s := inproc.New(inproc.Config{RtmpGopNum: 1, FlvGopNum: 1, TsGopNum: 1, Hls: true, HlsFragmentMs: 500, RecordFlv: true, RecordTs: true})
-	defer s.Close()
-	wire := render(c)
-	conn := s.RtmpConn()
-	if err := conn.WriteSliced(wire, c.Slices); err != nil {
-		// the server may close early; that is allowed
-		_ = err
-	}
-	conn.CloseWrite()
-	// the session must notice EOF and return
-	if !conn.WaitPeerDone(lalclient.DeliverTimeout) {
-		if v := s.PanicViolation(); v != nil {
-			return v
-		}
-		// stuck (parked in the same place) or merely slow?
-		if stuck, stack := pbt.StuckGoroutine("rtmp.(*Server).handleTcpConnect", 2*time.Second); stuck {
-			return pbt.V("session-never-returns", "the server-side session is still parked %v after the peer's EOF:\n%s", lalclient.DeliverTimeout, head(stack, 3000))
-		}
-		if !conn.WaitPeerDone(4 * lalclient.DeliverTimeout) {
-			lalclient.Harness("session did not end within %v and is not parked (machine too slow?)", 5*lalclient.DeliverTimeout)
+const maxSegments = 20000
+
+// segments returns the sizes of the TCP segments the stream is delivered in.
+func segments(c Case, w wire) []int {
+	n := len(w.b)
+	cut := map[int]bool{}
+	add := func(o int) {
+		if o > 0 && o < n {
+			cut[o] = true
 		}
 	}
-	if v := s.PanicViolation(); v != nil {
-		return v
+	off := 0
+	for _, s := range c.Slices {
+		if s > 0 {
+			off += s
+			add(off)
+		}
 	}
-	// the server still serves other connections
-	return probe(s)
+	if f := c.Frag; f != nil {
+		if f.Hdr1 {
+			for _, h := range w.hdrs {
+				for o := h[0]; o <= h[1]+1; o++ {
+					add(o)
+				}
+			}
+		}
+		if f.Edge {
+			for _, e := range w.msgEnds {
+				add(e - 1)
+				add(e)
+				add(e + 1)
+			}
+		}
+		if f.Every > 0 {
+			for o, k := w.hsEnd, 0; o < n && k < maxSegments; o, k = o+f.Every, k+1 {
+				add(o)
+			}
+		}
+		run := f.Run
+		if run < 1 {
+			run = 1
+		}
+		if run > 64 {
+			run = 64
+		}
+		for _, a := range f.At {
+			if n > 0 {
+				if a < 0 {
+					a = -a
+				}
+				for k := 0; k <= run; k++ {
+					add(a%n + k)
+				}
+			}
+		}
+	}
+	offs := make([]int, 0, len(cut))
+	for o := range cut {
+		offs = append(offs, o)
+	}
+	sort.Ints(offs)
+	if len(offs) > maxSegments {
+		offs = offs[:maxSegments]
+	}
+	sizes := make([]int, 0, len(offs)+1)
+	prev := 0
+	for _, o := range offs {
+		sizes = append(sizes, o-prev)
+		prev = o
+	}
+	if n > prev {
+		sizes = append(sizes, n-prev)
+	}
+	return sizes
 }
 
-func head(s string, n int) string {
-	if len(s) > n {
-		return s[:n]
-	}
-	return s
-}
+// ---- classification -------------------------------------------------------------
 
-func probe(s *inproc.Server) *pbt.Violation {
-	sub := lalclient.NewRtmpSub(s, "live", "probe")
-	if err := sub.JoinErr(); err != nil {
-		if v := s.PanicViolation(); v != nil {
-			return v
-		}
-		return pbt.V("probe/subscribe-failed", "a healthy subscriber could not join after the hostile session: %v", err)
-	}
-	p := lalclient.NewPublisher(s, "live", "probe", 0)
-	if p.Err != nil {
-		if v := s.PanicViolation(); v != nil {
-			return v
-		}
-		return pbt.V("probe/publish-failed", "a healthy publisher could not publish after the hostile session: %v", p.Err)
-	}
-	marker := []byte{0xAF, 1, 0xde, 0xad, 0xbe, 0xef, 1, 2, 3, 4}
-	_ = p.Send(gen.TypeAudio, 1, marker, 0)
-	if sub.WaitFor(func(r lalclient.Rec) bool { return bytes.Equal(r.Payload, marker) }, lalclient.DeliverTimeout) < 0 {
-		if v := s.PanicViolation(); v != nil {
-			return v
-		}
-		return pbt.V("probe/no-relay", "a healthy publisher/subscriber pair no longer relays after the hostile session")
-	}
-	return nil
+func wellFormedPlayOrPublish(m Msg) bool {
+	return m.Kind == "cmd" && (m.Cmd == "play" || m.Cmd == "publish") && len(m.Args) >= 2 && m.Args[0].K == "null" && m.Args[1].K == "str" &&
+		m.DeclLen == 0 && m.Fmt == 0
 }
 
 func classify(c Case) (bool, []string) {
 	labels := []string{"handshake:" + c.Handshake, "stage:" + c.Stage}
 	reached := c.Handshake == "simple" || c.Handshake == "complexish"
 	mutated := len(c.Flips) > 0 || c.Trunc >= 0
-	for _, m := range c.Msgs {
-		if m.Kind == "cmd" {
+	var one func(m Msg, inIlv bool)
+	afterTeardownCmd := false
+	one = func(m Msg, inIlv bool) {
+		switch m.Kind {
+		case "cmd":
 			labels = append(labels, "cmd:"+m.Cmd)
 			if m.Amf3 {
 				labels = append(labels, "amf3-command")
 			}
 			for _, a := range m.Args {
 				if a.K == "bomb" {
-					labels = append(labels, fmt.Sprintf("amf-bomb"))
+					labels = append(labels, "amf-bomb")
 				}
 				if a.K == "bad" {
 					labels = append(labels, "amf-malformed")
 					mutated = true
 				}
 			}
-		} else {
+			if wellFormedPlayOrPublish(m) {
+				mutated = true // re-ordered element
+				switch c.Stage {
+				case "playing":
+					labels = append(labels, "reorder:"+m.Cmd+"-after-play")
+				case "publishing":
+					labels = append(labels, "reorder:"+m.Cmd+"-after-publish")
+				default:
+					labels = append(labels, "wellformed-"+m.Cmd)
+				}
+			}
+			if m.Cmd == "deleteStream" || m.Cmd == "closeStream" || m.Cmd == "FCUnpublish" {
+				afterTeardownCmd = true
+			}
+			if m.Cmd == "connect" && c.Stage != "raw" && len(m.Args) > 0 && m.Args[0].K == "obj" {
+				labels = append(labels, "reorder:second-connect")
+				mutated = true
+			}
+		case "ilv":
+			if m.Ilv == nil || inIlv {
+				return
+			}
+			mutated = true
+			labels = append(labels, "ilv")
+			if len(m.Ilv.Scs) > 0 {
+				labels = append(labels, "ilv+set-chunk-size")
+			}
+			lying := false
+			for i, p := range m.Ilv.Parts {
+				one(p, true)
+				if p.DeclLen != 0 || (i > 0 && p.Csid == m.Ilv.Parts[0].Csid) {
+					lying = true
+				}
+			}
+			for _, sc := range m.Ilv.Scs {
+				if !sc.Adopt {
+					lying = true
+				}
+			}
+			if lying {
+				labels = append(labels, "ilv-lying")
+			} else {
+				labels = append(labels, "ilv-valid")
+			}
+			return
+		default:
 			labels = append(labels, fmt.Sprintf("type:%d", bucketType(m.Type)))
+			if afterTeardownCmd && (m.Type == 8 || m.Type == 9 || m.Type == 18) && c.Stage == "publishing" {
+				labels = append(labels, "reorder:media-after-deleteStream/closeStream")
+				mutated = true
+			}
 		}
 		if m.Kind == "raw" && m.RawLen > 8192 && m.Ts >= 0xFFFFFF && (m.Type == 8 || m.Type == 9 || m.Type == 18) && c.Stage == "publishing" && reached {
 			labels = append(labels, "published-media>2-chunks+ext-ts")
@@ -549,6 +1051,9 @@ func classify(c Case) (bool, []string) {
 			mutated = true
 		}
 	}
+	for _, m := range c.Msgs {
+		one(m, false)
+	}
 	if len(c.Flips) > 0 {
 		labels = append(labels, "byte-flips")
 	}
@@ -557,6 +1062,26 @@ func classify(c Case) (bool, []string) {
 	}
 	if len(c.Slices) > 0 {
 		labels = append(labels, "tcp-sliced")
+	}
+	if f := c.Frag; f != nil {
+		if f.Hdr1 {
+			labels = append(labels, "frag:chunk-headers-bytewise")
+		}
+		if f.Edge {
+			labels = append(labels, "frag:message-edges")
+		}
+		if f.Every > 0 {
+			labels = append(labels, "frag:every-n")
+			if f.Every == 1 {
+				labels = append(labels, "frag:every-byte")
+			}
+		}
+		if len(f.At) > 0 {
+			labels = append(labels, "frag:runs-at-offsets")
+		}
+	}
+	if c.By != "" {
+		labels = append(labels, "bystanders:"+c.By, "bystanders:"+c.By+"/"+c.Stage)
 	}
 	return reached && mutated && len(c.Msgs) > 0, uniq(labels)
 }
@@ -581,9 +1106,35 @@ func uniq(in []string) []string {
 	return out
 }
 
+// searchBudget: the share of the shard's wall-clock allowance (go test -timeout, set by the driver from check.json)
+// the generated search may use.  When the machine is so loaded that the requested number of cases does not fit, the
+// remaining cases are skipped and counted (excluded_known "time-budget-exhausted") instead of the shard being killed
+// by the test timeout, which would make the whole tier inconclusive.
+func searchBudget() time.Duration {
+	var d time.Duration
+	if f := flag.Lookup("test.timeout"); f != nil {
+		d, _ = time.ParseDuration(f.Value.String())
+	}
+	if d <= 0 {
+		return 0
+	}
+	b := d * 55 / 100
+	if !pbt.Thorough() && b > 85*time.Second {
+		b = 85 * time.Second
+	}
+	return b
+}
+
 func TestHostileRtmpPeer(t *testing.T) {
+	budget := searchBudget()
 	pbt.Run(t, pbt.Spec[Case]{
 		ID: "C04", Name: "hostile-rtmp-peer", Gen: genCase, Run: run, Classify: classify, Isolate: true,
-		Quick: 1500, Thorough: 20000,
+		Quick: 900, Thorough: 6000,
+		Exclude: func(Case) string {
+			if budget > 0 && time.Since(startTime) > budget {
+				return "time-budget-exhausted"
+			}
+			return ""
+		},
 	})
 }
